@@ -261,7 +261,15 @@ func c11Run(tb rapid.TB, c c11Case) {
 			// the calls are parked inside Transport.Write (nothing observable from outside): give them a moment
 			vWaitUntil(5*time.Second, func() bool { return vGoroutinesWith("(*memConn).Write(", "sync.(*Cond).Wait") >= 1 })
 		}
-		applyCause()
+		// the cause itself is a call into the client (Close, Disconnect): it must come back as well
+		applied := make(chan struct{})
+		go func() { defer close(applied); applyCause() }()
+		select {
+		case <-applied:
+		case <-time.After(20 * time.Second):
+			dump := vGoroutineDump()
+			fail("applying cause %q (a call into the client) has not returned after 20 s while %v were blocked\n%s", c.Cause, c.Calls, dump)
+		}
 	}
 	// ---- every call must return
 	donech := make(chan struct{})
